@@ -17,6 +17,9 @@ Lemma py_classify_error t :
 Proof. destruct t; simpl; split; intros H; try discriminate; auto;
        repeat (destruct H as [H|H]; try discriminate); auto. Qed.
 
+Lemma py_classify_propagates t : py_classify t = APropagates <-> t = RBaseExc.
+Proof. destruct t; simpl; split; intros H; try discriminate; auto. Qed.
+
 Lemma cmd_classify_spec rc :
   (cmd_classify rc = AOk <-> rc = 0) /\
   (cmd_classify rc = AFailed <-> rc <> 0 /\ rc <= 125) /\
@@ -25,6 +28,19 @@ Proof.
   unfold cmd_classify.
   destruct (rc >? 125) eqn:E1; destruct (rc =? 0) eqn:E2; simpl;
     repeat split; intros; try discriminate; try lia.
+Qed.
+
+Lemma cmd_classify_returns rc : cmd_classify rc <> APropagates.
+Proof. unfold cmd_classify. destruct (rc >? 125); [discriminate|]. destruct (rc =? 0); discriminate. Qed.
+
+Lemma cmd_execute_spec x rc :
+  (cmd_execute x rc = APropagates <-> x = XBaseExc) /\
+  (x = XRaises -> cmd_execute x rc = AError) /\
+  (x = XString -> cmd_execute x rc = cmd_classify rc).
+Proof.
+  repeat split; try (intros ->; reflexivity).
+  destruct x; simpl; intros H; try discriminate; auto.
+  exfalso. exact (cmd_classify_returns rc H).
 Qed.
 
 (* ---------- Task.execute ---------- *)
@@ -60,6 +76,7 @@ Proof.
       repeat split; auto. rewrite H4. simpl. lia.
     + simpl. rewrite E. repeat split; lia.
     + simpl. rewrite E. repeat split; lia.
+    + simpl. rewrite E. repeat split; lia.
 Qed.
 
 Lemma first_bad_not_ok acts a : first_bad acts = Some a -> a_out a <> AOk.
@@ -84,71 +101,449 @@ Proof.
     + destruct IH as [rest [H1 H2]]. exists rest. split; auto. simpl. congruence.
     + exists (b :: r). split; auto. exists r; auto.
     + exists (b :: r). split; auto. exists r; auto.
+    + exists (b :: r). split; auto. exists r; auto.
 Qed.
 
-(* ---------- capture ---------- *)
+(* ---------- writing into a stream ---------- *)
 Lemma chunks_app e a b : chunks e (a ++ b) = chunks e a ++ chunks e b.
 Proof. unfold chunks. rewrite filter_app, map_app. reflexivity. Qed.
 
-Lemma capture_complete v ws :
-  c_out (py_capture v ws) = chunks false ws /\ c_err (py_capture v ws) = chunks true ws /\
-  c_live_out (py_capture v ws) = (if (v =? 0) || (v =? 1) then [] else chunks false ws) /\
-  c_live_err (py_capture v ws) = (if v =? 0 then [] else chunks true ws).
+Lemma chunks_cons e w ws : chunks e (w :: ws) = (if Bool.eqb (fst w) e then [snd w] else []) ++ chunks e ws.
+Proof. unfold chunks. simpl. destruct (Bool.eqb (fst w) e); reflexivity. Qed.
+
+(* the executions whose StringIO a write into [t] reaches, and whether it reaches the original stream *)
+Fixpoint writer_ids (t : stream) : list nat :=
+  match t with SWriter i f => i :: writer_ids f | _ => [] end.
+Fixpoint reaches_orig (t : stream) : bool :=
+  match t with SOrig => true | SWriter _ f => reaches_orig f | _ => false end.
+
+Lemma updn_same {A} (f : nat -> A) k v : updn f k v k = v.
+Proof. unfold updn. rewrite Nat.eqb_refl. reflexivity. Qed.
+Lemma updn_other {A} (f : nat -> A) k v x : x <> k -> updn f k v x = f x.
+Proof. unfold updn. intros H. destruct (Nat.eqb_spec x k); [contradiction|reflexivity]. Qed.
+
+(* a write changes no cell, no saved value, no attribute *)
+Lemma deliver_frame t : forall c s,
+  s_cell (deliver t c s) = s_cell s /\ s_saved (deliver t c s) = s_saved s /\
+  s_live (deliver t c s) = s_live s /\ s_cap (deliver t c s) = s_cap s /\ s_attr (deliver t c s) = s_attr s.
 Proof.
-  unfold py_capture, live_out, live_err; simpl. repeat split.
-  - destruct (v =? 0); destruct (v =? 1); reflexivity.
-  - destruct (v =? 0); reflexivity.
+  induction t as [| |k|i f IH]; intros c s; simpl; auto.
+  destruct (IH c (add_buf s i c)) as (H1 & H2 & H3 & H4 & H5). simpl in *. auto.
+Qed.
+
+Lemma deliver_buf_other t : forall c s i, ~ In i (writer_ids t) -> s_buf (deliver t c s) i = s_buf s i.
+Proof.
+  induction t as [| |k|j f IH]; intros c s i Hn; simpl in *; auto.
+  rewrite IH by tauto. simpl. apply updn_other. intro; apply Hn; auto.
+Qed.
+
+Lemma deliver_orig t : forall c s, s_orig (deliver t c s) = s_orig s ++ (if reaches_orig t then [c] else []).
+Proof.
+  induction t as [| |k|j f IH]; intros c s; simpl; try (rewrite app_nil_r; reflexivity); auto.
+  rewrite IH. reflexivity.
 Qed.
 
 (* ---------- the global stream cell ---------- *)
-Lemma sstep_frame lg s o i :
-  sop_id o <> i ->
-  s_saved (sstep lg s o) i = s_saved s i /\ s_live (sstep lg s o) i = s_live s i.
+Lemma sstep_frame lg b s o i :
+  ~ In i (sop_ids o) ->
+  s_saved (sstep lg b s o) i = s_saved s i /\ s_live (sstep lg b s o) i = s_live s i /\
+  s_cap (sstep lg b s o) i = s_cap s i /\ s_attr (sstep lg b s o) i = s_attr s i.
 Proof.
-  intros Hne. destruct o as [j kf|j]; simpl in *.
-  - destruct kf; [destruct lg|]; simpl; auto.
-    unfold updn. destruct (Nat.eqb_spec i j); [congruence|auto].
-  - destruct (s_live s j); simpl; auto.
-    unfold updn. destruct (Nat.eqb_spec i j); [congruence|auto].
+  intros Hne. destruct o as [j mo me|e c|j e]; simpl in *.
+  - assert (i <> j) by (intro; apply Hne; left; congruence).
+    destruct (if b then me else mo); [destruct lg| | |]; simpl; auto;
+      rewrite ?updn_other by assumption; auto.
+  - destruct (Bool.eqb e b); auto.
+    destruct (deliver_frame (s_cell s) c s) as (_ & H2 & H3 & H4 & H5). rewrite H2, H3, H4, H5. auto.
+  - assert (i <> j) by (intro; apply Hne; left; congruence).
+    destruct (s_live s j); simpl; auto.
+    rewrite ?updn_other by assumption. destruct (s_cap s j); rewrite ?updn_other by assumption; auto.
 Qed.
 
-Lemma fold_frame lg l : forall s i,
-  ~ In i (map sop_id l) ->
-  s_saved (fold_left (sstep lg) l s) i = s_saved s i /\ s_live (fold_left (sstep lg) l s) i = s_live s i.
+Lemma fold_frame lg b l : forall s i,
+  ~ In i (ids_of l) ->
+  s_saved (fold_left (sstep lg b) l s) i = s_saved s i /\ s_live (fold_left (sstep lg b) l s) i = s_live s i /\
+  s_cap (fold_left (sstep lg b) l s) i = s_cap s i /\ s_attr (fold_left (sstep lg b) l s) i = s_attr s i.
 Proof.
   induction l as [|o l IH]; intros s i Hn; simpl in *; auto.
-  destruct (IH (sstep lg s o) i) as [H1 H2]; [tauto|].
-  destruct (sstep_frame lg s o i) as [H3 H4]; [intro; apply Hn; auto|].
-  split; congruence.
+  unfold ids_of in Hn. simpl in Hn. rewrite in_app_iff in Hn.
+  destruct (IH (sstep lg b s o) i) as (H1 & H2 & H3 & H4); [tauto|].
+  destruct (sstep_frame lg b s o i) as (H5 & H6 & H7 & H8); [tauto|].
+  repeat split; congruence.
 Qed.
 
-Lemma nested_restores l : nested l -> forall s, s_cell (fold_left (sstep false) l s) = s_cell s.
+Lemma write_cell lg b s e c : s_cell (sstep lg b s (Write e c)) = s_cell s.
+Proof. simpl. destruct (Bool.eqb e b); auto. apply deliver_frame. Qed.
+
+Lemma nested_restores b l : nested l -> forall s, s_cell (fold_left (sstep false b) l s) = s_cell s.
 Proof.
-  induction 1 as [|i l Hl IH|i l1 l2 H1 IH1 H2 IH2 Hfresh]; intros s.
+  induction 1 as [|i l Hl IH|e c l Hl IH|i mo me e l1 l2 Hmo Hme H1 IH1 H2 IH2 Hfresh]; intros s.
   - reflexivity.
-  - simpl. apply IH.
+  - simpl. destruct b; apply IH.
+  - cbn [fold_left]. rewrite IH. apply write_cell.
   - cbn [fold_left]. rewrite fold_left_app. cbn [fold_left].
-    set (s1 := sstep false s (Enter i false)).
-    set (s2 := fold_left (sstep false) l1 s1).
+    set (s1 := sstep false b s (Enter i mo me)).
+    set (s2 := fold_left (sstep false b) l1 s1).
     rewrite IH2.
-    destruct (fold_frame false l1 s1 i Hfresh) as [Hs Hl].
+    destruct (fold_frame false b l1 s1 i Hfresh) as (Hs & Hl & _ & _).
     fold s2 in Hs, Hl.
-    assert (Hlive : s_live s1 i = true) by (unfold s1; simpl; unfold updn; rewrite Nat.eqb_refl; reflexivity).
-    assert (Hsav : s_saved s1 i = s_cell s) by (unfold s1; simpl; unfold updn; rewrite Nat.eqb_refl; reflexivity).
-    unfold sstep at 1. rewrite Hl, Hlive. simpl. rewrite Hs, Hsav. reflexivity.
+    assert (Hc2 : s_cell s2 = s_cell s1) by (apply IH1).
+    unfold sstep at 1.
+    (* what Enter did, by mode *)
+    assert (Hm : (s_live s1 i = true /\ s_saved s1 i = s_cell s) \/ (s_live s1 i = false /\ s_cell s1 = s_cell s)).
+    { unfold s1. simpl. destruct (if b then me else mo) eqn:Em.
+      - exfalso. destruct b; congruence.
+      - left. simpl. rewrite !updn_same. auto.
+      - left. simpl. rewrite !updn_same. auto.
+      - right. simpl. rewrite updn_same. auto. }
+    destruct Hm as [[Hlive Hsav]|[Hlive Hcell]].
+    + rewrite Hl, Hlive. simpl. rewrite Hs, Hsav. reflexivity.
+    + rewrite Hl, Hlive. congruence.
 Qed.
 
-(* sequential execution is the special case with nothing nested inside *)
-Fixpoint sequential (ids : list (nat * bool)) : list sop :=
-  match ids with
-  | [] => []
-  | (i, true) :: r => Enter i true :: sequential r
-  | (i, false) :: r => Enter i false :: Exit i :: sequential r
-  end.
-Lemma sequential_nested ids : nested (sequential ids).
+Lemma nested_app l1 : nested l1 -> forall l2, nested l2 -> nested (l1 ++ l2).
 Proof.
-  induction ids as [|[i [|]] r IH]; simpl.
+  induction 1 as [|i l Hl IH|e c l Hl IH|i mo me e la lb Hmo Hme Ha IHa Hb IHb Hfresh]; intros l2 H2; simpl; auto.
+  - constructor; auto.
+  - constructor; auto.
+  - rewrite <- app_assoc. simpl. apply n_app; auto.
+Qed.
+
+(* self.out, once set, stays set *)
+Lemma sstep_attr_some lg b s o i : s_attr s i <> None -> s_attr (sstep lg b s o) i <> None.
+Proof.
+  intros H. destruct o as [j mo me|e c|j e]; simpl.
+  - destruct (if b then me else mo); [destruct lg| | |]; simpl; auto.
+  - destruct (Bool.eqb e b); auto.
+    destruct (deliver_frame (s_cell s) c s) as (_ & _ & _ & _ & H5). rewrite H5. auto.
+  - destruct (s_live s j); simpl; auto. destruct (s_cap s j); auto.
+    unfold updn. destruct (Nat.eqb i j); [discriminate|auto].
+Qed.
+
+Lemma fold_attr_some lg b l : forall s i, s_attr s i <> None -> s_attr (fold_left (sstep lg b) l s) i <> None.
+Proof.
+  induction l as [|o l IH]; intros s i H; simpl; auto.
+  apply IH. apply sstep_attr_some. exact H.
+Qed.
+
+(* every capturing execution of a properly nested sequence has set self.out at the end, however
+   the callables ended *)
+Lemma nested_attr_set (b : bool) l : nested l -> forall s i mo me f,
+  In (Enter i mo me) l -> (if b then me else mo) = MCapture f ->
+  s_attr (fold_left (sstep false b) l s) i <> None.
+Proof.
+  induction 1 as [|i0 l Hl IH|e0 c0 l Hl IH|i0 mo0 me0 e0 l1 l2 Hmo Hme H1 IH1 H2 IH2 Hfresh];
+    intros s i mo me f Hin Hm.
+  - destruct Hin.
+  - destruct Hin as [Heq|Hin].
+    + inversion Heq; subst. destruct b; discriminate.
+    + cbn [fold_left]. eapply IH; eauto.
+  - destruct Hin as [Heq|Hin]; [discriminate|].
+    cbn [fold_left]. eapply IH; eauto.
+  - cbn [fold_left]. rewrite fold_left_app. cbn [fold_left].
+    set (s1 := sstep false b s (Enter i0 mo0 me0)).
+    set (s2 := fold_left (sstep false b) l1 s1).
+    destruct Hin as [Heq|Hin].
+    + inversion Heq; subst i0 mo0 me0. apply fold_attr_some.
+      destruct (fold_frame false b l1 s1 i Hfresh) as (_ & Hl & Hc & _). fold s2 in Hl, Hc.
+      assert (Hlive : s_live s1 i = true /\ s_cap s1 i = true).
+      { unfold s1. simpl. rewrite Hm. simpl. rewrite !updn_same. auto. }
+      destruct Hlive as [Hlive Hcap].
+      simpl. rewrite Hl, Hlive. simpl. rewrite Hc, Hcap. rewrite updn_same. discriminate.
+    + apply in_app_or in Hin. destruct Hin as [Hin|[Heq|Hin]].
+      * apply fold_attr_some. apply sstep_attr_some. eapply IH1; eauto.
+      * discriminate.
+      * eapply IH2; eauto.
+Qed.
+
+(* ---------- one action, from any state ---------- *)
+Lemma wops_ids ws : ids_of (wops ws) = [].
+Proof. induction ws as [|w ws IH]; simpl; auto. Qed.
+
+Lemma wops_nested ws : nested (wops ws).
+Proof. induction ws as [|w ws IH]; simpl; constructor; auto. Qed.
+
+Lemma writes_frame lg b ws : forall s,
+  let s' := fold_left (sstep lg b) (wops ws) s in
+  s_cell s' = s_cell s /\ s_saved s' = s_saved s /\ s_live s' = s_live s /\ s_cap s' = s_cap s /\ s_attr s' = s_attr s.
+Proof.
+  induction ws as [|w ws IH]; intros s; cbv zeta.
+  - simpl. auto.
+  - cbn [wops map fold_left]. fold (wops ws).
+    pose proof (IH (sstep lg b s (Write (fst w) (snd w)))) as H. cbv zeta in H.
+    destruct H as (H1 & H2 & H3 & H4 & H5). rewrite H1, H2, H3, H4, H5. simpl.
+    destruct (Bool.eqb (fst w) b); auto. apply deliver_frame.
+Qed.
+
+Lemma writes_buf lg b i f ws : forall s,
+  s_cell s = SWriter i f -> ~ In i (writer_ids f) ->
+  s_buf (fold_left (sstep lg b) (wops ws) s) i = s_buf s i ++ chunks b ws.
+Proof.
+  induction ws as [|w ws IH]; intros s Hc Hn.
+  - simpl. rewrite app_nil_r. reflexivity.
+  - cbn [wops map fold_left]. fold (wops ws). rewrite IH; auto.
+    + rewrite chunks_cons. simpl. destruct (Bool.eqb (fst w) b); simpl; auto.
+      rewrite Hc. simpl. rewrite deliver_buf_other by assumption. simpl.
+      rewrite updn_same. rewrite <- app_assoc. reflexivity.
+    + rewrite write_cell. exact Hc.
+Qed.
+
+Lemma writes_buf_other lg b i ws : forall s,
+  ~ In i (writer_ids (s_cell s)) -> s_buf (fold_left (sstep lg b) (wops ws) s) i = s_buf s i.
+Proof.
+  induction ws as [|w ws IH]; intros s Hn; auto.
+  cbn [wops map fold_left]. fold (wops ws). rewrite IH.
+  - simpl. destruct (Bool.eqb (fst w) b); auto. apply deliver_buf_other. exact Hn.
+  - rewrite write_cell. exact Hn.
+Qed.
+
+Lemma writes_orig lg b ws : forall s,
+  s_orig (fold_left (sstep lg b) (wops ws) s) = s_orig s ++ (if reaches_orig (s_cell s) then chunks b ws else []).
+Proof.
+  induction ws as [|w ws IH]; intros s.
+  - simpl. destruct (reaches_orig (s_cell s)); rewrite app_nil_r; reflexivity.
+  - cbn [wops map fold_left]. fold (wops ws). rewrite IH. rewrite write_cell. rewrite chunks_cons.
+    simpl. destruct (Bool.eqb (fst w) b); simpl; auto.
+    rewrite deliver_orig. destruct (reaches_orig (s_cell s)); simpl; rewrite <- ?app_assoc; auto.
+Qed.
+
+Definition one_action (i : nat) (mo me : emode) (ws : list (bool * Z)) (e : rtag) : list sop :=
+  Enter i mo me :: wops ws ++ [Exit i e].
+
+(* capture on: whatever the state before, whatever way [e] the callable ends (an escaping
+   BaseException included): the cell is what it was, self.out is exactly what was written, and
+   the live stream got the same *)
+Lemma action_capture lg (b : bool) s i mo me f ws e :
+  (if b then me else mo) = MCapture f -> ~ In i (writer_ids f) ->
+  let s' := fold_left (sstep lg b) (one_action i mo me ws e) s in
+  s_cell s' = s_cell s /\ s_attr s' i = Some (chunks b ws) /\
+  s_orig s' = s_orig s ++ (if reaches_orig f then chunks b ws else []) /\
+  (forall j, j <> i -> s_attr s' j = s_attr s j).
+Proof.
+  intros Hm Hn. unfold one_action. cbn [fold_left]. rewrite fold_left_app. cbn [fold_left].
+  set (s1 := sstep lg b s (Enter i mo me)).
+  assert (E1 : s1 = enter_swap s i (SWriter i f) true) by (unfold s1; simpl; rewrite Hm; reflexivity).
+  set (s2 := fold_left (sstep lg b) (wops ws) s1).
+  destruct (writes_frame lg b ws s1) as (H1 & H2 & H3 & H4 & H5). fold s2 in H1, H2, H3, H4, H5.
+  assert (Hb : s_buf s2 i = chunks b ws).
+  { unfold s2. rewrite (writes_buf lg b i f); auto.
+    - rewrite E1. simpl. rewrite updn_same. reflexivity.
+    - rewrite E1. reflexivity. }
+  assert (Ho : s_orig s2 = s_orig s ++ (if reaches_orig f then chunks b ws else [])).
+  { unfold s2. rewrite writes_orig. rewrite E1. simpl. reflexivity. }
+  simpl. rewrite H3, H4, H2, H5, E1. simpl. rewrite !updn_same. simpl.
+  repeat split; auto.
+  - rewrite updn_same. rewrite Hb. reflexivity.
+  - intros j Hj. rewrite updn_other by assumption. reflexivity.
+Qed.
+
+(* capture off: the cell is what it was, self.out is not touched, the output went to the stream
+   given (or to the one that was installed, when none was given) *)
+Lemma action_nocapture lg (b : bool) s i mo me ws e :
+  (exists t, (if b then me else mo) = MRedirect t) \/ (if b then me else mo) = MKeep ->
+  let s' := fold_left (sstep lg b) (one_action i mo me ws e) s in
+  s_cell s' = s_cell s /\ s_attr s' = s_attr s /\
+  s_orig s' = s_orig s ++ (if reaches_orig (match (if b then me else mo) with MRedirect t => t | _ => s_cell s end)
+                           then chunks b ws else []).
+Proof.
+  intros Hm. unfold one_action. cbn [fold_left]. rewrite fold_left_app. cbn [fold_left].
+  set (s1 := sstep lg b s (Enter i mo me)).
+  set (s2 := fold_left (sstep lg b) (wops ws) s1).
+  destruct (writes_frame lg b ws s1) as (H1 & H2 & H3 & H4 & H5). fold s2 in H1, H2, H3, H4, H5.
+  assert (Ho : s_orig s2 = s_orig s1 ++ (if reaches_orig (s_cell s1) then chunks b ws else [])).
+  { unfold s2. apply writes_orig. }
+  destruct Hm as [[t Hm]|Hm]; rewrite Hm.
+  - assert (E1 : s1 = enter_swap s i t false) by (unfold s1; simpl; rewrite Hm; reflexivity).
+    simpl. rewrite H3, H4, H2, H5, Ho, E1. simpl. rewrite !updn_same. simpl. auto.
+  - assert (E1 : s1 = mkS (s_cell s) (s_saved s) (updn (s_live s) i false) (s_cap s) (s_buf s) (s_attr s) (s_orig s) (s_sink s))
+      by (unfold s1; simpl; rewrite Hm; reflexivity).
+    simpl. rewrite H3, E1. simpl. rewrite updn_same. rewrite H1, H5, Ho, E1. simpl. auto.
+Qed.
+
+(* ---------- sequential execution is the special case with nothing nested inside ---------- *)
+Inductive sitem :=
+| SFail (i : nat)                                                         (* _prepare_kwargs raises *)
+| SAct (i : nat) (capture : bool) (lo le : stream) (ws : list (bool * Z)) (e : rtag).
+Fixpoint sequential (xs : list sitem) : list sop :=
+  match xs with
+  | [] => []
+  | SFail i :: r => Enter i MFail MFail :: sequential r
+  | SAct i cap lo le ws e :: r => one_action i (mode_for cap lo) (mode_for cap le) ws e ++ sequential r
+  end.
+
+Lemma mode_for_not_fail cap l : mode_for cap l <> MFail.
+Proof. unfold mode_for. destruct cap; [discriminate|]. destruct l; discriminate. Qed.
+
+Lemma one_action_nested i mo me ws e l :
+  mo <> MFail -> me <> MFail -> nested l -> nested (one_action i mo me ws e ++ l).
+Proof.
+  intros Ho He Hl. unfold one_action. simpl. rewrite <- app_assoc. simpl.
+  apply n_app; auto.
+  - apply wops_nested.
+  - rewrite wops_ids. auto.
+Qed.
+
+Lemma sequential_nested xs : nested (sequential xs).
+Proof.
+  induction xs as [|[i|i cap lo le ws e] r IH]; simpl.
   - constructor.
   - constructor; auto.
-  - apply (n_app i [] (sequential r)); auto. constructor.
+  - apply (one_action_nested i (mode_for cap lo) (mode_for cap le) ws e (sequential r));
+      auto using mode_for_not_fail.
+Qed.
+
+(* ---------- one task, one run ---------- *)
+Lemma act_ops_one cap v a :
+  act_ops cap v a = one_action (as_id a) (mode_for cap (live_of (live_out v))) (mode_for cap (live_of (live_err v)))
+                               (as_ws a) (as_tag a).
+Proof. reflexivity. Qed.
+
+Lemma task_ops_nested cap v acts : nested (task_ops cap v acts).
+Proof.
+  induction acts as [|a r IH]; cbn [task_ops]; [constructor|].
+  rewrite act_ops_one.
+  apply one_action_nested; auto using mode_for_not_fail.
+  destruct (py_classify (as_tag a)); auto; constructor.
+Qed.
+
+Lemma run_ops_nested v tasks : forall tds, nested tds -> nested (run_ops v tasks tds).
+Proof.
+  induction tasks as [|t r IH]; intros tds Htds; cbn [run_ops]; auto.
+  assert (Htds' : nested (task_ops (t_capture t) v (t_teardown t) ++ tds))
+    by (apply nested_app; [apply task_ops_nested|exact Htds]).
+  apply nested_app; [apply task_ops_nested|].
+  destruct (task_outcome (t_acts t)); auto.
+Qed.
+
+Lemma ids_of_app l1 l2 : ids_of (l1 ++ l2) = ids_of l1 ++ ids_of l2.
+Proof. unfold ids_of. apply flat_map_app. Qed.
+
+Lemma act_ops_ids cap v a j : In j (ids_of (act_ops cap v a)) -> j = as_id a.
+Proof.
+  unfold act_ops. unfold ids_of. simpl. fold (ids_of (wops (as_ws a) ++ [Exit (as_id a) (as_tag a)])).
+  rewrite ids_of_app, wops_ids. simpl. intros [H|[H|[]]]; auto.
+Qed.
+
+Lemma task_ops_ids cap v acts j : In j (ids_of (task_ops cap v acts)) -> In j (map as_id (started acts)).
+Proof.
+  induction acts as [|a r IH]; cbn [task_ops started map]; auto.
+  rewrite ids_of_app, in_app_iff. intros [H|H].
+  - left. symmetry. eapply act_ops_ids; eauto.
+  - right. destruct (py_classify (as_tag a)); auto; destruct H.
+Qed.
+
+Lemma started_incl acts a : In a (started acts) -> In a acts.
+Proof.
+  induction acts as [|x r IH]; simpl; auto.
+  intros [H|H]; auto. right. destruct (py_classify (as_tag x)); auto; destruct H.
+Qed.
+
+Definition expected_attr (cap : bool) (b : bool) (a : aspec) : option (list Z) :=
+  if cap then Some (chunks b (as_ws a)) else None.
+
+(* every action the task started -- the one whose exception escapes included -- holds exactly
+   what it wrote; the others hold what they held before *)
+Lemma task_capture cap v b acts : forall s,
+  NoDup (map as_id acts) ->
+  forall a, In a acts ->
+  s_attr (fold_left (sstep false b) (task_ops cap v acts) s) (as_id a) =
+  if existsb (fun x => Nat.eqb (as_id x) (as_id a)) (started acts) && cap
+  then Some (chunks b (as_ws a)) else s_attr s (as_id a).
+Proof.
+  induction acts as [|a0 r IH]; intros s Hnd a Hin; [destruct Hin|].
+  inversion Hnd as [|? ? Hnotin Hnd']; subst.
+  cbn [task_ops started existsb]. rewrite fold_left_app. rewrite act_ops_one.
+  set (mo := mode_for cap (live_of (live_out v))). set (me := mode_for cap (live_of (live_err v))).
+  set (s1 := fold_left (sstep false b) (one_action (as_id a0) mo me (as_ws a0) (as_tag a0)) s).
+  set (rest := match py_classify (as_tag a0) with AOk => task_ops cap v r | _ => [] end).
+  assert (Hrest_ids : forall j, In j (ids_of rest) -> In j (map as_id r)).
+  { intros j Hj. unfold rest in Hj. destruct (py_classify (as_tag a0)); try destruct Hj.
+    apply task_ops_ids in Hj. apply in_map_iff in Hj. destruct Hj as [x [Hx1 Hx2]].
+    apply in_map_iff. exists x. split; auto. apply started_incl. exact Hx2. }
+  (* what the first action did to the attributes *)
+  assert (Hs1 : s_attr s1 (as_id a0) = (if cap then Some (chunks b (as_ws a0)) else s_attr s (as_id a0)) /\
+                forall j, j <> as_id a0 -> s_attr s1 j = s_attr s j).
+  { unfold s1. destruct cap.
+    - assert (Hm : (if b then me else mo) = MCapture (live_of (if b then live_err v else live_out v)))
+        by (unfold mo, me, mode_for; destruct b; reflexivity).
+      destruct (action_capture false b s (as_id a0) mo me _ (as_ws a0) (as_tag a0) Hm) as (_ & H2 & _ & H4).
+      { destruct (if b then live_err v else live_out v); simpl; auto. }
+      auto.
+    - assert (Hm : (exists t, (if b then me else mo) = MRedirect t) \/ (if b then me else mo) = MKeep).
+      { unfold mo, me, mode_for, live_of. destruct b; [destruct (live_err v)|destruct (live_out v)]; eauto. }
+      destruct (action_nocapture false b s (as_id a0) mo me (as_ws a0) (as_tag a0) Hm) as (_ & H2 & _).
+      rewrite H2. auto. }
+  destruct Hs1 as [Hs1 Hs1o].
+  destruct Hin as [<-|Hin].
+  - (* the first action itself: the rest does not mention it *)
+    rewrite Nat.eqb_refl. simpl.
+    destruct (fold_frame false b rest s1 (as_id a0)) as (_ & _ & _ & H4).
+    { intro Hj. apply Hnotin. apply Hrest_ids. exact Hj. }
+    rewrite H4, Hs1. reflexivity.
+  - assert (Hne : as_id a <> as_id a0).
+    { intro Heq. apply Hnotin. rewrite <- Heq. apply in_map. exact Hin. }
+    destruct (Nat.eqb_spec (as_id a0) (as_id a)); [congruence|]. simpl.
+    unfold rest. destruct (py_classify (as_tag a0)) eqn:Ec;
+      try (simpl; rewrite Hs1o by assumption; reflexivity).
+    rewrite IH by assumption. rewrite Hs1o by assumption. reflexivity.
+Qed.
+
+(* ---------- one action run by Task.execute on the original streams ---------- *)
+Lemma capture_one (cap : bool) v (b : bool) ws e :
+  let s' := srun false b (act_ops cap v {| as_id := 0; as_ws := ws; as_tag := e |}) in
+  s_cell s' = SOrig /\
+  s_attr s' 0%nat = (if cap then Some (chunks b ws) else None) /\
+  s_orig s' = (if cap && negb (if b then live_err v else live_out v) then [] else chunks b ws).
+Proof.
+  cbv zeta. unfold srun. rewrite act_ops_one. cbn [as_id as_ws as_tag].
+  set (mo := mode_for cap (live_of (live_out v))). set (me := mode_for cap (live_of (live_err v))).
+  destruct cap.
+  - assert (Hm : (if b then me else mo) = MCapture (live_of (if b then live_err v else live_out v)))
+      by (unfold mo, me, mode_for; destruct b; reflexivity).
+    destruct (action_capture false b s_init 0%nat mo me _ ws e Hm) as (H1 & H2 & H3 & _).
+    { destruct (if b then live_err v else live_out v); simpl; auto. }
+    rewrite H1, H2, H3. simpl. destruct (if b then live_err v else live_out v); simpl; auto.
+  - assert (Hm : (exists t, (if b then me else mo) = MRedirect t) \/ (if b then me else mo) = MKeep).
+    { unfold mo, me, mode_for, live_of. destruct b; [destruct (live_err v)|destruct (live_out v)]; eauto. }
+    destruct (action_nocapture false b s_init 0%nat mo me ws e Hm) as (H1 & H2 & H3).
+    rewrite H1, H2, H3. simpl. repeat split; auto.
+    unfold mo, me, mode_for, live_of. destruct b; [destruct (live_err v)|destruct (live_out v)]; reflexivity.
+Qed.
+
+Lemma capture_complete cap v ws e :
+  let c := py_capture cap v ws e in
+  c_out c = (if cap then Some (chunks false ws) else None) /\
+  c_err c = (if cap then Some (chunks true ws) else None) /\
+  c_live_out c = (if cap && ((v =? 0) || (v =? 1)) then [] else chunks false ws) /\
+  c_live_err c = (if cap && (v =? 0) then [] else chunks true ws) /\
+  c_cell_out c = SOrig /\ c_cell_err c = SOrig.
+Proof.
+  cbv zeta. unfold py_capture. cbn [c_out c_err c_live_out c_live_err c_cell_out c_cell_err].
+  destruct (capture_one cap v false ws e) as (A1 & A2 & A3).
+  destruct (capture_one cap v true ws e) as (B1 & B2 & B3).
+  cbv zeta in *. rewrite A1, A2, A3, B1, B2, B3. unfold live_out, live_err.
+  repeat split; auto.
+  - destruct cap; destruct (v =? 0); destruct (v =? 1); reflexivity.
+  - destruct cap; destruct (v =? 0); reflexivity.
+Qed.
+
+(* the exception leaves Task.execute iff the first action that does not succeed raised one that
+   is not an Exception *)
+Lemma task_outcome_propagates acts :
+  task_outcome acts = APropagates <->
+  exists pre a post, acts = pre ++ a :: post /\ (forall x, In x pre -> py_classify (as_tag x) = AOk) /\
+                     as_tag a = RBaseExc.
+Proof.
+  split.
+  - induction acts as [|a r IH]; simpl; [discriminate|].
+    destruct (py_classify (as_tag a)) eqn:E; try discriminate.
+    + intros H. destruct (IH H) as (pre & x & post & -> & Hok & Ht).
+      exists (a :: pre), x, post. repeat split; auto. intros y [<-|Hy]; auto.
+    + intros _. exists [], a, r. repeat split; auto.
+      * intros x [].
+      * apply py_classify_propagates. exact E.
+  - intros (pre & a & post & -> & Hok & Ht).
+    induction pre as [|p pre IH]; simpl.
+    + rewrite Ht. reflexivity.
+    + rewrite (Hok p) by (left; reflexivity). apply IH. intros x Hx. apply Hok. right. exact Hx.
 Qed.
